@@ -1119,6 +1119,10 @@ def run(ctx):
     # 5. html.escape itself
     extra += html_cases(ctx, rng, 200 if quick else 5000)
     run_.flush(extra)
+    sigs = {}
+    for v in ctx.violations:
+        sigs[v["sig"]] = sigs.get(v["sig"], 0) + 1
+    ctx.notes.append("oracle signatures on this run: " + (", ".join("%s=%d" % kv for kv in sorted(sigs.items())) or "none"))
 
 
 def replay(ctx, rp):
@@ -1137,6 +1141,16 @@ def replay(ctx, rp):
         run_.endpoint_case(cfg, case["endpoint_type"], case["mutation"], req.get("redirect_uri"), ctx.rng,
                            rtype=req["response_type"], mode=req.get("response_mode"), state=req.get("state"))
         run_.flush()
+        return
+    if case.get("kind") == "end_session":
+        run_ = Run(ctx)
+        lo = Logout(ctx, run_.ops["oidc"])
+        cfgi = [c[0] for c in Logout.CONFIGS].index(case["config"])
+        lo.case(cfgi, case["mutation"], case["uri"], case.get("state"), ctx.rng, other_client=bool(case.get("other_client")))
+        check_groups(ctx, [{"imports": ["Lib.Base", "Lib.PyStr", "Lib.Urlenc", "Lib.Html", "Model.Delivery"],
+                            "type": "pystr * option pystr * pystr", "chk": "chk_logout_target", "cases": lo.cases, "label": "logout"},
+                           {"imports": ["Lib.Base", "Lib.PyStr", "Model.Uri"], "type": "vcase", "chk": "chk_verify",
+                            "cases": lo.vcases, "label": "logoutverify", "diag": "diag_verify"}])
         return
     ctx.notes.append("replay re-runs the generator with the recorded seed")
     ctx.rng.seed(rp.get("seed", ctx.seed))
